@@ -14,7 +14,7 @@ import os
 import time
 
 from . import common
-from .common import InternalError, log, pmap
+from .common import EXEC_HORIZON, ExecTimeout, InternalError, log, pmap, time_limit
 from .rawread import RawState
 from .report import Violation
 from .views import handle_state
@@ -112,19 +112,24 @@ def _expand_task(arg):
     _install_listdir(spec.listdir_order)
     out = []
     for op in ops:
-        w = _replay(spec, root, hist)
+        w = None
         try:
-            before = RawState(w.root)
-            model_before = w.model.copy()
-            res = w.apply(op)
-            after = RawState(w.root)
-            viols = []
-            if not res.ok:
-                viols.append((res.clause, res.detail))
-            viols += spec.step_check(w, before, after, res, hist, model_before)
-            out.append((op, _canon(w, after), w.model.state(), viols))
+            with time_limit(EXEC_HORIZON):
+                w = _replay(spec, root, hist)
+                before = RawState(w.root)
+                model_before = w.model.copy()
+                res = w.apply(op)
+                after = RawState(w.root)
+                viols = []
+                if not res.ok:
+                    viols.append((res.clause, res.detail))
+                viols += spec.step_check(w, before, after, res, hist, model_before)
+                out.append((op, _canon(w, after), w.model.state(), viols))
+        except ExecTimeout as exc:
+            out.append((op, ('hang', repr(hist), repr(op)), None, [('hang', f'operation {op} after {hist}: {exc}')]))
         finally:
-            w.close()
+            if w is not None:
+                w.close()
     return out
 
 
@@ -132,14 +137,21 @@ def _state_task(arg):
     root, hist, expect_canon = arg
     spec = _SPEC
     _install_listdir(spec.listdir_order)
-    w = _replay(spec, root, hist)
+    if expect_canon and expect_canon[0] == 'hang':
+        return []
+    w = None
     try:
-        raw = RawState(w.root)
-        if expect_canon is not None and _canon(w, raw) != expect_canon:
-            raise InternalError(f'nondeterministic replay of {hist}: canonical state differs between two executions')
-        return spec.state_check(w, raw, hist)
+        with time_limit(EXEC_HORIZON):
+            w = _replay(spec, root, hist)
+            raw = RawState(w.root)
+            if expect_canon is not None and _canon(w, raw) != expect_canon:
+                raise InternalError(f'nondeterministic replay of {hist}: canonical state differs between two executions')
+            return spec.state_check(w, raw, hist)
+    except ExecTimeout as exc:
+        return [('hang', f'state check after {hist}: {exc}')]
     finally:
-        w.close()
+        if w is not None:
+            w.close()
 
 
 def _dominated(pairs, d, v):
@@ -211,6 +223,8 @@ def explore(spec: SeqSpec, report, deadline: float | None = None):
                     for clause, detail in viols:
                         n_step_viol += 1
                         report.add_violation(_viol(spec, clause, detail, rname, h2, op))
+                    if canon[0] == 'hang':
+                        continue        # reported as a violation above; a hanging history is not expanded
                     if canon in seen:
                         ms, pairs, first = seen[canon]
                         if ms != mstate:
